@@ -128,7 +128,7 @@ def run_probe(pid, tier, seed, shard, nshards, rundir, extra_opts, timeout, jour
             if journal:
                 if os.path.exists(jpath):
                     os.remove(jpath)
-                cmd += ["--journal", jpath, "--start", str(start)]
+                cmd += ["--journal", jpath] + (["--start", str(start)] if journal != "norestart" else [])
             left = max(5, timeout - (time.time() - t0))
             if not journal:
                 try:
@@ -154,7 +154,7 @@ def run_probe(pid, tier, seed, shard, nshards, rundir, extra_opts, timeout, jour
                     now = time.time()
                     if sz != last_size:
                         last_size, last_change = sz, now
-                    if now - last_change > CASE_WATCHDOG:
+                    if journal is True and now - last_change > CASE_WATCHDOG:
                         proc.kill()
                         proc.wait()
                         rc = "case-watchdog"
@@ -179,6 +179,8 @@ def run_probe(pid, tier, seed, shard, nshards, rundir, extra_opts, timeout, jour
             if last_k is None:
                 break
             deaths.append({"rc": rc, "case_index": last_k, "case": last_payload})
+            if journal == "norestart":
+                break
             start = last_k + 1
             attempt += 1
     hashes = [hash_path] + [f"{hash_path}.{i}" for i in range(1, attempt + 1)]
@@ -284,7 +286,7 @@ def run_check(spec, pid, tier, seed, replay_sig=None):
     shard_results = []
     if nshards > 0:
         with ThreadPoolExecutor(max_workers=min(nshards, NCPU)) as ex:
-            futs = [ex.submit(run_probe, pid, tier, seed, i, nshards, rundir, extra, timeout, bool(spec.get("journal"))) for i in range(nshards)]
+            futs = [ex.submit(run_probe, pid, tier, seed, i, nshards, rundir, extra, timeout, spec.get("journal") or False) for i in range(nshards)]
             shard_results = [f.result() for f in futs]
         parse_outputs(pid, shard_results, res, keep_recs=bool(spec.get("offline")))
     distinct = count_distinct([h for sr in shard_results for h in (sr["hashes"] if isinstance(sr["hashes"], list) else [sr["hashes"]])])
